@@ -14,7 +14,7 @@ CLAIMS = {
  "C06": ("proof", "Buffer::scroll_up/scroll_down are proved row-by-row (shift by min(n, height), blanks in the pen, rows outside untouched, scrollback prefix untouched, pushed rows appended in order); all region helpers, IL/DL, LF/NEL/RI pass the right range; every other function's frame keeps the active buffer or its scrollback; DECSTBM validity.", "5/C06"),
  "C07": ("proof", "Buffer::erase for all seven modes, insert, delete and the Terminal wrappers ED/EL/ECH/ICH/DCH/DECALN are proved cell-by-cell against extent predicates written from the statement, with frames for cursor, modes and other rows.", "5/C07"),
  "C08": ("proof", "Terminal::sgr is proved to be the left fold of apply_sgr over the operation list; Pen mutators/accessors are proved independent (disjoint non-zero masks); blank/printed cells carry exactly the pen (Cell/Line/Buffer clauses). SgrOps::next decoding is a Kani unit.", "5/C08"),
- "C10": ("model_checking", "Verus proves Buffer::resize / logical_position / relative_position (arithmetic, geometry, cursor range, identity for an unchanged size) for all inputs against an assumed shape contract of reflow; the content half (logical text preserved, cursor stays on its character, text above the cursor's logical line unchanged) is decided by bounded Kani units on the real reflow / Reflow::next / Line::{extend, contract, trim} and on Buffer::resize end-to-end (<= 3 lines, widths <= 3). Bounded, stated as such.", "5/C10"),
+ "C10": ("proof", "Verus proves for all contents, cursors and (cols,rows)->(cols',rows'): logical_position / relative_position compute exactly the cursor's logical line index and offset (ends_before / run_before / at_logical); Buffer::resize returns a cursor in the same logical line at the same offset (incl. wrap-pending, the cursor-above-the-view correction, truncation below the cursor, view re-anchoring) and keeps every logical line above the cursor's line up to trailing blanks; Line::extend / contract / trim keep row ++ rest cell for cell and drop only trailing default cells of a row that ends its logical line; carried to Terminal::reflow/resize. ASSUMED (external_body, outside Verus: Option::or_else with a capturing closure over a generic iterator, collect): the contract of reflow()/Reflow::next - rows at the new width, number of logical lines kept, every logical line kept up to trailing blanks - checked only by bounded Kani units (<= 3 rows, widths <= 3, thorough tier, may time out) and Line::{trailers, expand} (width <= 3). The content half of C10 is therefore proved relative to that assumption, not unconditionally.", "5/C10"),
  "C12": ("proof", "Vt::feed's contract (parser step, then execute or nothing); non-interference lemma for every control function (the visible result does not depend on dirty flags, trim flag, scrollback content or limit); chunking theorem by induction over runs with arbitrary silent steps (changes(), gc()) in between. feed_str = fold of feed + changes + gc is a bounded Kani unit. One listed finding (F2: feed() never trims, so lines() differs on the alternate screen).", "5/C12"),
  "C13": ("proof", "trim_ok (trim pending or scrollback within the hard limit) is part of the proved invariant and re-established by every mutator; hard == soft + soft/10 is a checked closure contract; the alternate buffer carries limit 0; lemma_c13_bound gives the lines() bound once trim_needed is false. Buffer::gc / trim_scrollback / Terminal::gc (drain exactness, also when the iterator is dropped unconsumed) are bounded Kani units.", "5/C13"),
  "C14": ("proof", "Scrollback theorem: for any session without RIS/resize, lines handed out so far ++ limited terminal's primary lines == unlimited terminal's primary lines, by induction from per-function growth lemmas (lines only grow at the scrollback/view boundary, identically in both runs) and the gc relation; gc_rel on the real Terminal::gc is a bounded Kani unit. The TextCollector corollary (String code) is not claimed.", "5/C14"),
